@@ -46,7 +46,7 @@ var (
 // fileDesc describes one directory entry of a physical directory.
 type fileDesc struct {
 	Name string `json:"name"`
-	// valid | semantic | garbage | empty | subdir | dangling | linkdir | linkfile
+	// valid | semantic | garbage | empty | subdir | dangling | linkdir | linkfile | socket | chardev | noperm
 	Kind   string   `json:"kind"`
 	Vendor string   `json:"vendor,omitempty"`
 	Class  string   `json:"class,omitempty"`
@@ -184,7 +184,11 @@ func genLayout(rng *rand.Rand) layoutDesc {
 			case name == "sub":
 				f.Kind = "subdir"
 			default:
-				switch rng.Intn(12) {
+				switch rng.Intn(14) {
+				case 12:
+					f.Kind = "socket" // a unix socket under a Spec name: cannot be opened
+				case 13:
+					f.Kind = "chardev" // a character device (1,3) under a Spec name: reads as empty
 				case 0:
 					f.Kind = "semantic"
 				case 1:
@@ -422,6 +426,14 @@ func materialize(l layoutDesc) (dirs []string, view []any) {
 				_ = os.WriteFile(path, []byte("{ this is : not [ a spec"), 0o644)
 			case "empty":
 				_ = os.WriteFile(path, nil, 0o644)
+			case "socket", "chardev":
+				mode, dev := uint32(syscall.S_IFSOCK|0o644), 0
+				if f.Kind == "chardev" {
+					mode, dev = uint32(syscall.S_IFCHR|0o644), 1<<8|3
+				}
+				if err := syscall.Mknod(path, mode, dev); err != nil {
+					_ = os.WriteFile(path, nil, 0o644) // not permitted here: an empty regular file fails to load as well
+				}
 			case "subdir":
 				_ = os.MkdirAll(path, 0o755)
 				g := f
